@@ -5,3 +5,4 @@ import PtModel.Sexp
 import PtModel.Spec
 import PtModel.Lower
 import PtModel.Handle
+import PtModel.Affine
